@@ -72,6 +72,13 @@ def handle (cmd : String) (j : J) : Except String J :=
     match addFeatureRecord (← parseView (← j.get "view")) (← parseSpans (← j.get "spans")) (← (← j.get "minus").toBool) with
     | .ok (db, dm) => pure (J.obj [("spans", J.arr (db.map fun p => J.arr [J.num p.1, J.num p.2])), ("minus", J.bool dm)])
     | .error _ => pure (J.obj [("err", J.str "error")])
+  | "addfeature_full" => do
+    -- the whole of `Sequence.add_feature`: db record + the Feature returned (spans need not be well formed)
+    match addFeature (← parseView (← j.get "view")) (← parseSpans (← j.get "spans")) (← (← j.get "minus").toBool) with
+    | .ok ((db, dm), f) =>
+      pure (J.obj [("db", J.arr (db.map fun p => J.arr [J.num p.1, J.num p.2])), ("minus", J.bool dm),
+                   ("spans", J.arr (f.spans.map mspanJ)), ("reversed", J.bool f.reversed)])
+    | .error e => pure (errJ e)
   | "copyview" => do
     match copyView (← parseView (← j.get "view")) with
     | .ok w => pure (J.obj [("start", J.num w.start), ("stop", J.num w.stop), ("step", J.num w.step),
